@@ -1,0 +1,28 @@
+//go:build verif
+
+package store
+
+import "sync/atomic"
+
+// VerifHookFn receives one call per crash-point marker of the store: the marker's name, the height
+// of the operation (0 where the call site does not know it) and the path of the file-system entry
+// the effect concerns ("" for effects without one). The callback may block: markers double as
+// gates of a deterministic scheduler.
+type VerifHookFn func(ev string, height uint64, path string)
+
+var verifHook atomic.Pointer[VerifHookFn]
+
+// SetVerifHook installs (or, with nil, removes) the marker callback.
+func SetVerifHook(f VerifHookFn) {
+	if f == nil {
+		verifHook.Store(nil)
+		return
+	}
+	verifHook.Store(&f)
+}
+
+func verifMark(ev string, height uint64, path string) {
+	if h := verifHook.Load(); h != nil {
+		(*h)(ev, height, path)
+	}
+}
